@@ -33,6 +33,7 @@ def parseApi (ws : List String) : Option Api.Op :=
   | ["params", s, k, r, len, m, n1, seed] => do
       some (.params (← n? s) ⟨← n? k, ← n? r, ← n? len, ← n? m, (← n? n1) % 256, ← seed.toInt?⟩)
   | ["release", s] => do some (.release (← n? s))
+  | ["unconf", s] => do some (.unconf (← n? s))
   | ["cb", s, pol] => do
       some (.cb (← n? s) (if pol == "buf" then .buf else if pol == "null" then .null else if pol == "mix" then .mix else .none))
   | ["ctrl", s, what] => do some (.ctrl (← n? s) what)
